@@ -126,7 +126,11 @@ func cmdCheck(args []string) {
 	}
 	known := loadKnownFindings(filepath.Join(*vdir, "known_findings.txt"))
 
-	P, err := LoadProgram(*repo, filepath.Join(*vdir, "harness"))
+	needed := []string{}
+	for _, hs := range spec.Harnesses {
+		needed = append(needed, hs.Name)
+	}
+	P, err := LoadProgramFor(*repo, filepath.Join(*vdir, "harness"), needed)
 	if err != nil {
 		fmt.Println("INCONCLUSIVE load failed:", err)
 		os.Exit(2)
@@ -524,6 +528,10 @@ func nativeValidateSamples(repo, vdir, pkg, harness, id string, params map[strin
 	overlay := map[string]string{}
 	files, _ := filepath.Glob(filepath.Join(vdir, "harness", pkg, "*.go"))
 	for _, f := range files {
+		src, _ := os.ReadFile(f)
+		if strings.Contains(string(src), "//verif:engine-only") {
+			continue
+		}
 		overlay[filepath.Join(repo, "internal", pkg, "zz_verif_"+filepath.Base(f))] = f
 	}
 	test := fmt.Sprintf(`package %s
